@@ -99,8 +99,19 @@ func (dec *Decoder) readStringAsBytes(utf16Length int) (data []byte, safe bool) 
 			}
 			return
 		}
-		data = append(data, dec.buf[dec.head:dec.head-remains]...)
-		dec.head -= remains
+		// the last character straddles the buffers: its missing bytes may arrive in several reads
+		for remains < 0 {
+			n := dec.tail - dec.head
+			if n > -remains {
+				n = -remains
+			}
+			data = append(data, dec.buf[dec.head:dec.head+n]...)
+			dec.head += n
+			remains += n
+			if remains < 0 && !dec.loadMore() {
+				return
+			}
+		}
 		length = dec.tail - dec.head
 	}
 }
